@@ -51,8 +51,8 @@ class UseFunction:
         if resources is None:
             resources = self.project.get_python_files()
         changes = change.ChangeSet("Using function <%s>" % self.pyfunction.get_name())
+        newresources = list(resources)
         if self.resource in resources:
-            newresources = list(resources)
             newresources.remove(self.resource)
         for c in self._restructure(newresources, task_handle).changes:
             changes.add_change(c)
